@@ -10,7 +10,8 @@ RULE = ("The C08 workload (random / biased code in ELF64 and ELF32 objects throu
         "harness) records the Instruction objects the parser produced; the invariant decode(stream) == [(addr, mnemonic, "
         "operands or one empty field)] (byte-continuation pseudo instructions removed) is evaluated on every run, i.e. no "
         "field contains ',', '|' or '::' and every record is terminated exactly once. Without the hook R-line's list is used "
-        "for addresses/counts. Non-trivial/distinct = distinct line shapes seen.")
+        "for addresses/counts. Non-trivial/distinct = distinct line shapes seen. "
+        "(1d) the stream under a rule whose valid_addr_range holds no address of the listing equals the plain stream.")
 FLOOR = {"quick": 300, "thorough": 1500}
 ANCHOR_HINTS = ["global_definitions", "consumer", "asm_manual_parser_w_regex"]
 REQUIRED_EVENTS = ["streams_decoded", "assembled_batches_judged"]
